@@ -54,7 +54,14 @@ func loadAndCheck(raw []byte, m DebModel, members []ArMember, viaFile bool, inde
 			defer closer()
 		}
 	} else {
-		d, err = deb.Load(bytes.NewReader(raw), pathname)
+		br := bytes.NewReader(raw)
+		switch len(raw) % 4 { // a ReaderAt does not care where the Read position of its bytes.Reader stands
+		case 1:
+			io.CopyN(io.Discard, br, 8)
+		case 2:
+			io.Copy(io.Discard, br)
+		}
+		d, err = deb.Load(br, pathname)
 		if err == nil {
 			defer d.Close()
 		}
